@@ -59,7 +59,8 @@ ASSUMPTIONS = [
     "*args/**kwargs carry Griffe's documented pseudo defaults '()' / '{}'; has-default / required-ness is compared for non-variadic parameters only",
     "overload groups: per scope and name, overloads precede at most one implementation (no re-definition of an implementation, no overload after it); "
     "groups without implementation are generated but nothing is demanded of them beyond not being attached elsewhere",
-    "property groups: setters/deleters are defined under the property's own name in the same class body, after the getter",
+    "property groups: setters/deleters are defined under the property's own name in the same class body, after the getter; the same "
+    "accessors are also read through the inherited member of an empty subclass (Griffe: an Alias proxy; CPython: the same property object)",
     "annotation / default texts come from small position-indexed pools: names, subscripts, unions, literals in several notations, and a few "
     "composite forms (tuple inside a call / conditional / list inside a subscript; keyword arguments holding calls with keyword arguments, "
     "**mapping arguments) built from helper callables that return plain data; expression rendering at large is C03's subject",
@@ -380,6 +381,41 @@ def check_properties(case: dict) -> list[Fail]:
                 if pyacc is not None:
                     sub = function_fails(role, f"{role} of {what}", gacc, pyacc)
                     fails += [Fail("accessor-attached", f"{role}-signature:{f.clause}", f.message + "\n" + code) for f in sub]
+    fails += inherited_view_fails(case, mod, ns, code)
+    return fails
+
+
+def inherited_view_fails(case: dict, mod, ns: dict, code: str) -> list[Fail]:
+    """The same accessors read through the inherited member of an empty subclass (an Alias in Griffe, the very same property
+    object in CPython): setter / deleter must still be the ones attached to the property."""
+    fails: list[Fail] = []
+    # inherited members are resolved through the modules collection: register the visited module in its own collection
+    call("total", mod.modules_collection.set_member, mod.name, mod, what="modules_collection.set_member")
+    for cls in case["classes"]:
+        sub_name = "S" + cls["name"]
+        gsub = member(mod, sub_name)
+        pysub = ns[sub_name]
+        if gsub is None or getattr(gsub.kind, "value", "") != "class":
+            fails.append(Fail("member", "scope", f"class {sub_name} is not a class member in Griffe: {gsub!r}\n{code}"))
+            continue
+        inherited = call("total", lambda g=gsub: g.all_members, what=f"{sub_name}.all_members")
+        for pname in sorted({it["p"] for it in cls["body"] if it["t"] == "get"}):
+            prop = inspect.getattr_static(pysub, pname)
+            view = inherited.get(pname)
+            what = f"property {cls['name']}.{pname} read as inherited member {sub_name}.{pname}"
+            if view is None or "property" not in view.labels:
+                fails.append(Fail("property-kept", "inherited-view:missing", f"{what}: Griffe has {view!r}\n{code}"))
+                continue
+            for role, pyacc, label in (("setter", prop.fset, "writable"), ("deleter", prop.fdel, "deletable")):
+                gacc = call("total", lambda v=view, r=role: getattr(v, r), what=f"{sub_name}.{pname}.{role}")
+                if (pyacc is None) != (gacc is None):
+                    fails.append(
+                        Fail("accessor-attached", f"inherited-view:{role}-presence", f"{what}: CPython {role} {'absent' if pyacc is None else 'present'}, Griffe {role}={gacc!r}\n{code}")
+                    )
+                    continue
+                if pyacc is not None:
+                    sub = function_fails(role, f"{role} of {what}", gacc, pyacc)
+                    fails += [Fail("accessor-attached", f"inherited-view:{role}-signature:{f.clause}", f.message + "\n" + code) for f in sub]
     return fails
 
 
